@@ -212,7 +212,8 @@ class Gen:
             "injects": [],
             "echo_id": False,
             "hooks": self.on("hooks") and ch.chance(1, 2, "hooks"),
-            "tmpl_via": "template",
+            # the template comes from the `template` attribute or from the user's get_template() (one more user callback)
+            "tmpl_via": "get_template" if ch.chance(1, 4, "tmpl_via") else "template",
             "js": None, "css": None, "media_js": [], "media_css": [],
         }
         if self.on("provide"):
